@@ -2,10 +2,13 @@
 `Id.run do` blocks.  Its output, lean/Amshan/GeneratedCode{Fcs,BackOff,P1,Hdlc}.lean, is REGENERATED from the working tree on every
 run; Props/*Gen.lean prove each generated definition equal to the hand-written model, so for these functions
 the tie between model and code is a kernel-checked theorem about a mechanical translation of the source, not a
-sample.  Supported: int/bool/list/Optional[int] values, assignments (plain and augmented), if/else, for over
+sample.  Supported: int/bool/list/Optional[int] values, bytes/bytearray (as `List Nat`), Optional[bytes] (as
+`Option (List Nat)`), Optional[bool], assignments (plain and augmented), if/else, for over
 range(...) or a list, return, list.append, len/max/min, indexing and slicing (total: out-of-range index = 0 —
-the theorems state the guards), comparisons, and/or/not, conditional expressions, `is (not) None`.
-Logging calls and docstrings are dropped.  Anything else raises Unsupported: the check then reports the
+the theorems state the guards; `x[a:-k]` with a literal k), comparisons (`opt == int` is `opt == some int`, as
+`None == 3` is False), and/or/not, conditional expressions, `is (not) None`, `cast(int, x)`, `bytes(x)`,
+`bytearray()`, calls of other translated functions, and `while True:` without break (the last statement of
+its block; see `Fn.while_true`).  Logging calls and docstrings are dropped.  Anything else raises Unsupported: the check then reports the
 function as untranslatable (an obligation that no longer checks)."""
 from __future__ import annotations
 
@@ -14,12 +17,57 @@ import inspect
 import textwrap
 
 
+class _Missing:
+    def __init__(self, path):
+        self.path = path
+
+    def __getattr__(self, name):
+        if name.startswith("__"):
+            raise AttributeError(name)
+        return _Missing(self.path + "." + name)
+
+
+class _Safe:
+    """getattr that yields a _Missing marker instead of raising; classes are wrapped again, functions are returned raw"""
+
+    def __init__(self, obj, path):
+        object.__setattr__(self, "_o", obj)
+        object.__setattr__(self, "_p", path)
+
+    def __getattr__(self, name):
+        o = object.__getattribute__(self, "_o")
+        p = object.__getattribute__(self, "_p") + "." + name
+        try:
+            v = inspect.getattr_static(o, name)
+        except AttributeError:
+            return _Missing(p)
+        return _Safe(v, p) if inspect.isclass(v) else v
+
+
+def unwrap_fn(x):
+    """the plain function behind a property / functools.cached_property / staticmethod / classmethod"""
+    if isinstance(x, _Missing):
+        return x
+    for attr in ("fget", "func", "__func__"):
+        f = getattr(x, attr, None)
+        if callable(f):
+            return f
+    return x
+
+
 class Unsupported(Exception):
     pass
 
 
 BINOPS = {ast.Add: "+", ast.Sub: "-", ast.Mult: "*", ast.FloorDiv: "/", ast.Mod: "%", ast.BitXor: "^^^",
           ast.BitAnd: "&&&", ast.BitOr: "|||", ast.LShift: "<<<", ast.RShift: ">>>"}
+
+
+LEAN_TY = {"int": "Nat", "bool": "Bool", "list": "List Nat", "optint": "Option Nat", "optbool": "Option Bool",
+           "optlist": "Option (List Nat)"}
+OPT_BASE = {"optint": "int", "optbool": "bool", "optlist": "list"}
+DEFAULTS = {"int": "0", "bool": "false", "list": "([] : List Nat)", "optint": "(none : Option Nat)",
+            "optbool": "(none : Option Bool)", "optlist": "(none : Option (List Nat))"}
 
 
 def dotted(node):
@@ -34,23 +82,28 @@ def dotted(node):
 class Fn:
     """one Python function -> one Lean definition"""
 
-    def __init__(self, name, obj, params, ret, mapping=None, mutates=None, calls=None):
+    def __init__(self, name, obj, params, ret, mapping=None, mutates=None, calls=None, callfns=None, fuel=None):
         self.name = name                  # Lean name
         self.obj = obj                    # Python function object
         self.params = params              # [(lean name, lean type)]
         self.ret = ret                    # 'Nat' | 'Bool' | 'List Nat' | 'Option Nat' | 'Option Bool'
         self.mapping = mapping or {}      # python dotted name -> (lean expr, type)
-        self.mutates = mutates or {}      # python dotted attribute -> local mutable lean name (returned at the end)
+        # python dotted attribute -> (local mutable lean name (returned at the end), type); a bare name means int
+        self.mutates = {k: ((v, "int") if isinstance(v, str) else v) for k, v in (mutates or {}).items()}
         self.calls = calls or {}          # python dotted callee/property -> (lean expr, type)
+        self.callfns = callfns or {}      # python dotted callee with arguments -> (lean function (partially applied), [argument types], result type)
+        self.fuel = fuel                  # lean expression: number of iterations granted to a `while True:` loop
+        self.aux = []                     # auxiliary definitions (loops), emitted before the definition
         self.locals = {}                  # python local -> type
+        self.in_loop = False
         self.lines = []
 
     # ---------------------------------------------------------------- expressions
     def to_int(self, e, t):
         if t == "int":
             return e
-        if t == "optint":
-            return f"({e}).getD 0"
+        if t == "optint":                 # total: None is used as 0 (the theorems state the guards)
+            return f"(({e}).getD 0)"
         if t == "bool":
             return f"(if {e} then 1 else 0)"
         raise Unsupported(f"cannot use {t} as int: {e}")
@@ -60,11 +113,40 @@ class Fn:
             return e
         if t == "int":
             return f"({e} != 0)"
-        if t in ("optint", "optbool"):
-            return f"({e}).isSome"
+        if t == "optint":                 # truthiness: None and 0 are false
+            return f"(({e}).getD 0 != 0)"
+        if t == "optbool":
+            return f"(({e}).getD false)"
         if t == "list":
             return f"(!({e}).isEmpty)"
+        if t == "optlist":
+            return f"(!(({e}).getD []).isEmpty)"
         raise Unsupported(f"cannot use {t} as bool: {e}")
+
+    def to_list(self, e, t):
+        if t == "list":
+            return e
+        if t == "optlist":                # total: None is used as b"" (the theorems state the guards)
+            return f"(({e}).getD [])"
+        raise Unsupported(f"cannot use {t} as bytes/list: {e}")
+
+    def coerce(self, e, te, want):
+        """value of type `te` stored in / returned as a `want`"""
+        if te == want:
+            return e
+        if want in OPT_BASE:
+            if te == "none":
+                return "none"
+            if te in OPT_BASE:
+                raise Unsupported(f"cannot use {te} as {want}: {e}")
+            return f"some ({self.coerce(e, te, OPT_BASE[want])})"
+        if want == "bool":
+            return self.to_bool(e, te)
+        if want == "int":
+            return self.to_int(e, te)
+        if want == "list":
+            return self.to_list(e, te)
+        raise Unsupported(f"cannot use {te} as {want}: {e}")
 
     def expr(self, n):
         if isinstance(n, ast.Constant):
@@ -78,7 +160,7 @@ class Fn:
         d = dotted(n)
         if d is not None:
             if d in self.mutates:
-                return self.mutates[d], "int"
+                return self.mutates[d]
             if d in self.mapping:
                 return self.mapping[d]
             if d in self.calls:
@@ -117,9 +199,19 @@ class Fn:
             if isinstance(op, (ast.Is, ast.IsNot)):
                 if tb != "none":
                     raise Unsupported("is / is not with a non-None operand")
+                if ta not in OPT_BASE:
+                    raise Unsupported(f"is / is not None of a {ta}")
                 return (f"({a}).isNone" if isinstance(op, ast.Is) else f"({a}).isSome"), "bool"
-            if ta == "bool" and tb == "bool" and isinstance(op, (ast.Eq, ast.NotEq)):
-                return f"({a} {'==' if isinstance(op, ast.Eq) else '!='} {b})", "bool"
+            if isinstance(op, (ast.Eq, ast.NotEq)):
+                eq = "==" if isinstance(op, ast.Eq) else "!="
+                if ta == tb and ta in ("bool", "list", "optint", "optbool", "optlist"):
+                    return f"({a} {eq} {b})", "bool"
+                if ta in OPT_BASE and tb == OPT_BASE[ta]:          # `None == 3` is False
+                    return f"({a} {eq} some ({b}))", "bool"
+                if tb in OPT_BASE and ta == OPT_BASE[tb]:
+                    return f"(some ({a}) {eq} {b})", "bool"
+                if ta in OPT_BASE or tb in OPT_BASE or ta == "list" or tb == "list":
+                    raise Unsupported(f"== between {ta} and {tb}")
             x, y = self.to_int(a, ta), self.to_int(b, tb)
             sym = {ast.Eq: "==", ast.NotEq: "!=", ast.Lt: "<", ast.LtE: "≤", ast.Gt: ">", ast.GtE: "≥"}.get(type(op))
             if sym is None:
@@ -136,9 +228,26 @@ class Fn:
             return f"(if {c} then {self.to_int(a, ta)} else {self.to_int(b, tb)})", "int"
         if isinstance(n, ast.Call):
             f = dotted(n.func)
+            if n.keywords:
+                raise Unsupported(f"keyword arguments in call {f}")
             if f == "len" and len(n.args) == 1:
                 a, ta = self.expr(n.args[0])
-                return f"({a}).length", "int"
+                return f"({self.to_list(a, ta)}).length", "int"
+            if f == "cast" and len(n.args) == 2 and dotted(n.args[0]) == "int":       # typing.cast: identity
+                return self.to_int(*self.expr(n.args[1])), "int"
+            if f in ("bytes", "bytearray") and not n.args:
+                return "([] : List Nat)", "list"
+            if f in ("bytes", "bytearray") and len(n.args) == 1:                       # copy of a byte string
+                a, ta = self.expr(n.args[0])
+                if ta != "list":
+                    raise Unsupported(f"{f}() of a {ta}")
+                return a, "list"
+            if f in self.callfns:
+                lean, argts, rt = self.callfns[f]
+                if len(argts) != len(n.args):
+                    raise Unsupported(f"call {f}: {len(n.args)} arguments, {len(argts)} expected")
+                args = [self.coerce(*self.expr(x), want) for x, want in zip(n.args, argts)]
+                return "(" + " ".join([lean] + args) + ")", rt
             if f in ("max", "min") and len(n.args) == 2:
                 a, ta = self.expr(n.args[0])
                 b, tb = self.expr(n.args[1])
@@ -151,9 +260,16 @@ class Fn:
             if ta != "list":
                 raise Unsupported("subscript of a non-list")
             if isinstance(n.slice, ast.Slice):
+                if n.slice.step is not None:
+                    raise Unsupported("slice step")
                 lo = self.to_int(*self.expr(n.slice.lower)) if n.slice.lower else "0"
                 if n.slice.upper is None:
                     return f"(({a}).drop {lo})", "list"
+                up = n.slice.upper
+                if (isinstance(up, ast.UnaryOp) and isinstance(up.op, ast.USub) and isinstance(up.operand, ast.Constant)
+                        and type(up.operand.value) is int and up.operand.value > 0):
+                    # x[lo:-k] ends at max(len(x) - k, 0): exactly the truncated subtraction of Nat
+                    return f"((({a}).take (({a}).length - {up.operand.value})).drop {lo})", "list"
                 hi = self.to_int(*self.expr(n.slice.upper))
                 return f"((({a}).take {hi}).drop {lo})", "list"
             i = self.to_int(*self.expr(n.slice))
@@ -194,39 +310,81 @@ class Fn:
                     _, t = self.expr(node.value)
                 except Unsupported:
                     continue
-                if t in ("bool", "list", "optint") and not getattr(self, "_typed_" + node.targets[0].id, False):
+                if t in ("bool", "list", "optint", "optbool", "optlist") and not getattr(self, "_typed_" + node.targets[0].id, False):
                     self.locals[node.targets[0].id] = t
                 setattr(self, "_typed_" + node.targets[0].id, True)
 
     def default(self, t):
-        return {"int": "0", "bool": "false", "list": "([] : List Nat)", "optint": "(none : Option Nat)"}[t]
+        return DEFAULTS[t]
+
+    def ret_tag(self):
+        for tag, ty in LEAN_TY.items():
+            if ty == self.ret:
+                return tag
+        raise Unsupported(f"return type {self.ret}")
 
     def ret_expr(self, n):
         if n is None:
             if self.mutates:
-                vals = list(self.mutates.values())
+                vals = [v for v, _ in self.mutates.values()]
                 return vals[0] if len(vals) == 1 else "(" + ", ".join(vals) + ")"
             return "()"
         e, t = self.expr(n)
-        if self.ret.startswith("Option"):
-            if t == "none":
-                return "none"
-            if t in ("optint", "optbool"):
-                return e
-            inner = self.to_bool(e, t) if self.ret == "Option Bool" else self.to_int(e, t)
-            return f"some ({inner})"
-        if self.ret == "Bool":
-            return self.to_bool(e, t)
-        if self.ret == "List Nat":
-            return e
-        return self.to_int(e, t)
+        return self.coerce(e, t, self.ret_tag())
+
+    # ---------------------------------------------------------------- `while True:`
+    def state_vars(self):
+        """the `let mut` variables of the definition: [(lean name, type)]"""
+        res = list(self.mutates.values())
+        res += [(self.lname(py), t) for py, t in self.locals.items() if not any(py == p for p, _ in self.params)]
+        return res
+
+    def while_true(self, st, pad):
+        """`while True:` without break/continue, as the last statement of its block (so whatever follows the
+        block is only reached by falling out of an enclosing `if`, never from the loop).  The loop becomes an
+        auxiliary definition by recursion on a fuel argument, whose body is the translated loop body followed by
+        the recursive call; the state is all `let mut` variables.  A `return` in the body is a return of the
+        function, as in Python.  Python's loop has no bound: when the fuel runs out the auxiliary definition
+        answers its extra argument `oof`, and the equivalence theorem is stated for every `oof` and every large
+        enough fuel — so it also proves that the fuel the definition grants (`Fn.fuel`) is never used up."""
+        if not (isinstance(st.test, ast.Constant) and st.test.value is True):
+            raise Unsupported("while with a condition other than True")
+        if st.orelse:
+            raise Unsupported("while-else")
+        if any(isinstance(x, (ast.Break, ast.Continue, ast.While)) for s2 in st.body for x in ast.walk(s2)):
+            raise Unsupported("break / continue / nested while in `while True`")
+        if self.fuel is None:
+            raise Unsupported("`while True` in a function without a configured fuel")
+        if self.in_loop:
+            raise Unsupported("`while True` inside another loop")
+        state = self.state_vars()
+        name = f"{self.name}.loop{len(self.aux) + 1}"
+        pargs = " ".join(n for n, _ in self.params)
+        self.in_loop = True
+        body = self.stmts(st.body, 2)
+        self.in_loop = False
+        lines = [f"def {name} " + " ".join(f"({n} : {t})" for n, t in self.params) + f" (oof : {self.ret}) : Nat → "
+                 + " → ".join(LEAN_TY[t] for _, t in state) + f" → {self.ret}",
+                 "  | 0, " + ", ".join("_" for _ in state) + " => oof",
+                 "  | fuel + 1, " + ", ".join(f"{n}_in" for n, _ in state) + " => Id.run do"]
+        lines += [f"    let mut {n} := {n}_in" for n, _ in state]
+        lines += body
+        lines.append(f"    return {name} {pargs} oof fuel " + " ".join(n for n, _ in state))
+        self.aux.append("\n".join(lines))
+        oof = self.default(self.ret_tag())
+        return [f"{pad}return {name} {pargs} {oof} ({self.fuel}) " + " ".join(n for n, _ in state)]
 
     def stmts(self, body, ind):
         out = []
         pad = "  " * ind
-        for st in body:
+        for pos, st in enumerate(body):
             if isinstance(st, ast.Expr) and isinstance(st.value, ast.Constant) and isinstance(st.value.value, str):
                 continue                                           # docstring
+            if isinstance(st, ast.While):
+                if pos != len(body) - 1:
+                    raise Unsupported("statements after a `while True` loop")
+                out += self.while_true(st, pad)
+                continue
             if isinstance(st, ast.Expr) and isinstance(st.value, ast.Call):
                 f = dotted(st.value.func) or ""
                 if f.startswith("_LOGGER."):
@@ -244,13 +402,9 @@ class Fn:
                 d = dotted(t)
                 e, te = self.expr(st.value)
                 if d in self.mutates:
-                    out.append(f"{pad}{self.mutates[d]} := {self.to_int(e, te)}")
+                    out.append(f"{pad}{self.mutates[d][0]} := {self.coerce(e, te, self.mutates[d][1])}")
                 elif isinstance(t, ast.Name):
-                    lt = self.locals[t.id]
-                    val = e if lt == te or lt in ("list", "optint") else (self.to_bool(e, te) if lt == "bool" else self.to_int(e, te))
-                    if lt == "optint" and te == "int":
-                        val = f"some ({e})"
-                    out.append(f"{pad}{self.lname(t.id)} := {val}")
+                    out.append(f"{pad}{self.lname(t.id)} := {self.coerce(e, te, self.locals[t.id])}")
                 else:
                     raise Unsupported(f"assignment target {ast.dump(t)[:40]}")
                 continue
@@ -259,7 +413,9 @@ class Fn:
                 if type(st.op) not in BINOPS:
                     raise Unsupported("augmented operator")
                 e, te = self.expr(st.value)
-                name = self.mutates.get(d) or self.lname(d)
+                name, nt = self.mutates[d] if d in self.mutates else (self.lname(d), self.locals.get(d))
+                if nt != "int":
+                    raise Unsupported(f"augmented assignment to a {nt}")
                 out.append(f"{pad}{name} := ({name} {BINOPS[type(st.op)]} {self.to_int(e, te)})")
                 continue
             if isinstance(st, ast.If):
@@ -299,7 +455,9 @@ class Fn:
                 else:
                     out.append(f"{pad}for {self.lname(tgt)}_it in {coll} do")
                     out.append(f"{pad}  {self.lname(tgt)} := {self.lname(tgt)}_it")
+                was, self.in_loop = self.in_loop, True
                 out += self.stmts(st.body, ind + 1) or [f"{pad}  pure ()"]
+                self.in_loop = was
                 continue
             if isinstance(st, ast.Return):
                 out.append(f"{pad}return {self.ret_expr(st.value)}")
@@ -310,7 +468,9 @@ class Fn:
         return out
 
     def translate(self):
-        src = textwrap.dedent(inspect.getsource(self.obj))
+        if isinstance(self.obj, _Missing):
+            raise Unsupported(f"{self.obj.path} does not exist in the source")
+        src = textwrap.dedent(inspect.getsource(unwrap_fn(self.obj)))
         fn = ast.parse(src).body[0]
         if not isinstance(fn, (ast.FunctionDef,)):
             raise Unsupported("not a plain function")
@@ -321,39 +481,46 @@ class Fn:
         self.collect_locals(fn.body)
         head = f"def {self.name} " + " ".join(f"({n} : {t})" for n, t in self.params) + f" : {self.ret} := Id.run do"
         lines = [head]
-        for py, lean in self.mutates.items():
+        for py, (lean, _) in self.mutates.items():
             lines.append(f"  let mut {lean} := {lean}0")
         for py, t in self.locals.items():
             if any(py == p for p, _ in self.params):
                 continue
             lines.append(f"  let mut {self.lname(py)} := {self.default(t)}")
         body = self.stmts(fn.body, 1)
-        ends_with_return = bool(fn.body) and isinstance(fn.body[-1], ast.Return)
+        ends_with_return = bool(fn.body) and isinstance(fn.body[-1], (ast.Return, ast.While))
         lines += body
         if not ends_with_return:
             lines.append(f"  return {self.ret_expr(None)}")
-        return "\n".join(lines)
+        return "\n\n".join(self.aux + ["\n".join(lines)])
 
 
 def generate(han):
     """han: dict of imported modules. Returns ({file name: lean text}, problems)."""
-    ffc, hdlc, dlde, mc = han["fastframecheck"], han["hdlc"], han["dlde"], han["meter_connection"]
+    # attribute look-ups through _Safe never raise: a function the changed source no longer has becomes a _Missing
+    # object, whose translation is reported as a problem (and a stub) for that one function only
+    ffc, hdlc, dlde, mc = (_Safe(han[k], k) for k in ("fastframecheck", "hdlc", "dlde", "meter_connection"))
     F = ffc.FastFrameCheckSequence16
     H = hdlc.HdlcFrameHeader
+    HF = hdlc.HdlcFrame
     tbl = {"FastFrameCheckSequence16.fast_frame_check_crc_table": ("Amshan.Gen.fcsTable", "list"),
            "FastFrameCheckSequence16.INIT_FCS_16": ("Amshan.Gen.fcsInit", "int"),
            "self.INIT_FCS_16": ("Amshan.Gen.fcsInit", "int"), "self.GOOD_FCS_16": ("Amshan.Gen.fcsGood", "int")}
     frame = {"self._frame": ("data", "list"), "self._frame.as_bytes": ("data", "list")}
+    hdr = {**frame, "self._control_position": ("controlPosition", "optint")}                      # inside HdlcFrameHeader
+    adr = {"self._get_address": ("hdlcGetAddress data", ["int"], "optlist")}
+    frm = {"self": ("data", "list"), "self._frame_data": ("data", "list")}                         # inside HdlcFrame (len(self))
+    infopos = {"self._header.information_position": ("(hdlcInformationPosition controlPosition)", "optint")}
     fns = [
         Fn("computeFcsTable", ffc._compute_fcs_16_crc_table, [], "List Nat"),
         Fn("fcsNext", F._next, [("crc", "Nat"), ("byte", "Nat")], "Nat", mapping={**tbl, "crc": ("crc", "int"), "byte": ("byte", "int")}),
-        Fn("fcsChecksum", F.checksum.fget, [("crcValue", "Nat")], "Nat", mapping={"self._crc_value": ("crcValue", "int")}),
-        Fn("fcsIsGood", F.is_good.fget, [("crcValue", "Nat")], "Bool", mapping={**tbl, "self._crc_value": ("crcValue", "int")}),
+        Fn("fcsChecksum", unwrap_fn(F.checksum), [("crcValue", "Nat")], "Nat", mapping={"self._crc_value": ("crcValue", "int")}),
+        Fn("fcsIsGood", unwrap_fn(F.is_good), [("crcValue", "Nat")], "Bool", mapping={**tbl, "self._crc_value": ("crcValue", "int")}),
         Fn("fcsComputeChecksum", F.compute_checksum, [("data", "List Nat"), ("start", "Nat"), ("length", "Nat")], "Nat",
            mapping={**tbl, "data": ("data", "list"), "start": ("start", "int"), "length": ("length", "int")}),
         Fn("backoffFailure", mc.ExponentialBackOff.failure, [("delay0", "Nat")], "Nat", mutates={"self._delay": "delay"}),
         Fn("backoffReset", mc.ExponentialBackOff.reset, [("delay0", "Nat")], "Nat", mutates={"self._delay": "delay"}),
-        Fn("backoffCurrent", mc.ExponentialBackOff.current_delay_sec.fget, [("delay", "Nat"), ("maxDelay", "Nat")], "Nat",
+        Fn("backoffCurrent", unwrap_fn(mc.ExponentialBackOff.current_delay_sec), [("delay", "Nat"), ("maxDelay", "Nat")], "Nat",
            mapping={"self._delay": ("delay", "int"), "self.max_delay": ("maxDelay", "int")}),
         Fn("getBackOffTime", mc.ConnectionManager._get_back_off_time, [("currentDelay", "Nat"), ("sleepFlag", "Bool"), ("sleepSec", "Nat")], "Nat",
            mapping={"self.back_off_connect_error.current_delay_sec": ("currentDelay", "int"),
@@ -361,15 +528,42 @@ def generate(han):
                     "self.connection_lost_back_off_sleep_sec": ("sleepSec", "int")}),
         Fn("p1CalculateCrc16", dlde.DataReadout._calculate_crc16, [("readout", "List Nat"), ("endPos", "Nat")], "Nat",
            mapping={"self._readout": ("readout", "list"), "self._end_pos": ("endPos", "int")}),
-        Fn("hdlcFrameFormat", H.frame_format.fget, [("data", "List Nat")], "Option Nat", mapping=frame),
-        Fn("hdlcFrameFormatType", H.frame_format_type.fget, [("data", "List Nat")], "Option Nat",
+        Fn("hdlcFrameFormat", unwrap_fn(H.frame_format), [("data", "List Nat")], "Option Nat", mapping=frame),
+        Fn("hdlcFrameFormatType", unwrap_fn(H.frame_format_type), [("data", "List Nat")], "Option Nat",
            mapping=frame, calls={"self.frame_format": ("(hdlcFrameFormat data)", "optint")}),
-        Fn("hdlcSegmentation", H.segmentation.fget, [("data", "List Nat")], "Option Bool",
+        Fn("hdlcSegmentation", unwrap_fn(H.segmentation), [("data", "List Nat")], "Option Bool",
            mapping=frame, calls={"self.frame_format": ("(hdlcFrameFormat data)", "optint")}),
-        Fn("hdlcFrameLength", H.frame_length.fget, [("data", "List Nat")], "Option Nat",
+        Fn("hdlcFrameLength", unwrap_fn(H.frame_length), [("data", "List Nat")], "Option Nat",
            mapping=frame, calls={"self.frame_format": ("(hdlcFrameFormat data)", "optint")}),
-        Fn("hdlcInformationPosition", H.information_position.fget, [("controlPosition", "Option Nat")], "Option Nat",
+        Fn("hdlcInformationPosition", unwrap_fn(H.information_position), [("controlPosition", "Option Nat")], "Option Nat",
            mapping={"self._control_position": ("controlPosition", "optint")}),
+        # header: fields at the cached control position
+        Fn("hdlcControl", unwrap_fn(H.control), [("data", "List Nat"), ("controlPosition", "Option Nat")], "Option Nat", mapping=hdr),
+        Fn("hdlcHeaderCheckSequence", unwrap_fn(H.header_check_sequence), [("data", "List Nat"), ("controlPosition", "Option Nat")], "Option Nat",
+           mapping=hdr),
+        # header: addresses (`while True` loop; fuel len(frame) + 1, proved never to run out)
+        Fn("hdlcGetAddress", H._get_address, [("data", "List Nat"), ("position", "Nat")], "Option (List Nat)",
+           mapping={**frame, "position": ("position", "int")}, fuel="(data).length + 1"),
+        Fn("hdlcDestinationAddress", unwrap_fn(H.destination_address), [("data", "List Nat")], "Option (List Nat)", mapping=frame, callfns=adr),
+        Fn("hdlcSourceAddress", unwrap_fn(H.source_address), [("data", "List Nat")], "Option (List Nat)", mapping=frame, callfns=adr,
+           calls={"self.destination_address": ("(hdlcDestinationAddress data)", "optlist")}),
+        Fn("hdlcGetControlFieldPosition", H._get_control_field_position, [("data", "List Nat")], "Option Nat", mapping=frame,
+           calls={"self.destination_address": ("(hdlcDestinationAddress data)", "optlist"),
+                  "self.source_address": ("(hdlcSourceAddress data)", "optlist")}),
+        Fn("hdlcHeaderUpdate", H.update, [("data", "List Nat"), ("isGoodFfc", "Bool"), ("controlPosition0", "Option Nat"), ("isHeaderGood0", "Option Bool")],
+           "Option Nat × Option Bool", mapping={**frame, "self._frame.is_good_ffc": ("isGoodFfc", "bool")},
+           mutates={"self._control_position": ("controlPosition", "optint"), "self._is_header_good": ("isHeaderGood", "optbool")},
+           callfns={"self._get_control_field_position": ("hdlcGetControlFieldPosition data", [], "optint")}),
+        # frame
+        Fn("hdlcIsGoodFfc", unwrap_fn(HF.is_good_ffc), [("ffcIsGood", "Bool")], "Bool", mapping={"self._ffc.is_good": ("ffcIsGood", "bool")}),
+        Fn("hdlcIsExpectedLength", unwrap_fn(HF.is_expected_length), [("data", "List Nat")], "Bool", mapping=frm,
+           calls={"self._header.frame_length": ("(hdlcFrameLength data)", "optint")}),
+        Fn("hdlcFrameCheckSequence", unwrap_fn(HF.frame_check_sequence), [("data", "List Nat"), ("controlPosition", "Option Nat")], "Option Nat",
+           mapping=frm, calls=infopos),
+        Fn("hdlcPayload", unwrap_fn(HF.payload), [("data", "List Nat"), ("controlPosition", "Option Nat")], "Option (List Nat)",
+           mapping=frm, calls=infopos),
+        Fn("hdlcIsValid", unwrap_fn(HF.is_valid), [("isGoodFfc", "Bool"), ("data", "List Nat")], "Bool",
+           mapping={"self.is_good_ffc": ("isGoodFfc", "bool")}, calls={"self.is_expected_length": ("(hdlcIsExpectedLength data)", "bool")}),
     ]
     groups = {"Fcs": fns[0:5], "BackOff": fns[5:9], "P1": fns[9:10], "Hdlc": fns[10:]}
     problems = []
@@ -383,7 +577,7 @@ def generate(han):
             try:
                 out.append(fn.translate())
             except Exception as ex:  # Unsupported or a changed signature: emit a stub that breaks the equivalence theorem
-                problems.append(f"pytrans: {fn.name}: {type(ex).__name__}: {ex}")
+                problems.append(f"GeneratedCode{g}: pytrans: {fn.name}: {type(ex).__name__}: {ex}")
                 out.append(f"/- untranslatable: {ex} -/\ndef {fn.name} : Unit := ()")
             out.append("")
         out.append("end Amshan.GenCode")
